@@ -14,6 +14,7 @@ import Circomspect.Model.Propagate
 import Circomspect.Model.SignalAssign
 import Circomspect.Model.Includes
 import Circomspect.Model.Taint
+import Circomspect.Lemmas.PathValues
 import Driver.Sexp
 import Driver.DesugarCmd
 
@@ -671,7 +672,23 @@ def wfcheckCmd (rest : String) : String :=
       if ps.isEmpty then "wf" else "not-wf " ++ "; ".intercalate ps
   | _ => "bad-op"
 
+/-- `pathhyps <ssa cfg>`: the hypothesis `SingleDef` of the path-level soundness theorems
+    (`C06_path_sound`, `C07_path_sound`, C20) in its decidable form `Propagate.singleDefB`, evaluated on
+    the statements of a real SSA dump; lists the variables that have more than one substitution -/
+def pathhypsCmd (rest : String) : String :=
+  match Sexp.parse rest with
+  | some c =>
+    let g := irCfg c
+    let P := Propagate.stmtsOf g.blocks
+    if Propagate.singleDefB P then s!"singledef subs={(P.filterMap Propagate.defVar).length}"
+    else
+      let ks := P.filterMap Propagate.defKey
+      let dup := ((ks.filter (fun k => ks.any (fun k' => k'.1 == k.1 && !(k.2 && k'.2)) && (ks.filter (·.1 == k.1)).length > 1)).map (·.1)).eraseDups
+      "multi " ++ " ".intercalate (dup.map (fun v => v.name ++ (match v.suffix with | some s => "_" ++ s | none => "") ++ (match v.version with | some k => s!".{k}" | none => "")))
+  | none => "bad-op"
+
 def handle (line : String) : String :=
+  if line.startsWith "pathhyps " then pathhypsCmd (line.drop 9).toString else
   if line.startsWith "desugar " then desugarCmd (line.drop 8).toString else
   if line.startsWith "cfglift " then cfgliftCmd (line.drop 8).toString else
   if line.startsWith "wfcheck " then wfcheckCmd (line.drop 8).toString else
